@@ -70,6 +70,10 @@ def truthy(v):
         return True  # objects without __bool__/__len__ are truthy; opaque refs model such objects
     if isinstance(v, Unknown):
         raise OutOfSubset(f"truthiness of unknown value {v!r}")
+    if isinstance(v, z3.BoolRef):
+        return v  # a raw term handed back by a specification helper
+    if isinstance(v, z3.ExprRef):
+        raise OutOfSubset(f"truthiness of a raw solver term {v}")
     if isinstance(v, VObj):
         return True
     if isinstance(v, (list, tuple, dict, set, frozenset) + NATIVE_SCALARS):
